@@ -596,7 +596,12 @@ func init() {
 			tp := p.(*pack.TextPack)
 			n := s.LenSmall(5)
 			for i := 0; i < n; i++ {
-				tp.AddText(pack.TextRec{Div: byte(s.Int64()), Hash: int32(s.Int64()), Text: s.String()})
+				r := pack.TextRec{Div: byte(s.Int64()), Hash: int32(s.Int64()), Text: s.String()}
+				if s.Intn(4) == 0 {
+					// the hash field is whatever the sending agent computed: the same (div, hash) can come with another text
+					r.Div, r.Hash = 1, 777
+				}
+				tp.AddText(r)
 			}
 		}, nil, "TextPack.records")
 
